@@ -33,6 +33,8 @@ def plain(h):
 
 def run_case(ctx, rng, idx):
     m = idx % 8
+    if idx in (7, 15) or (ctx.tier == "thorough" and idx % 2000 in (23, 31, 39, 47)):
+        return saturated_pool_case(ctx, rng, idx)
     [case_random, case_uniform, case_scale_free, case_hoad, case_add, case_shuffle, case_shuffle, case_shuffle][m](ctx, rng, idx)
 
 
@@ -63,6 +65,7 @@ def case_random(ctx, rng, idx, uniform=False):
     else:
         by = {s: rng.randint(0, 8) for s in rng.sample(range(1, min(6, n) + 1), rng.randint(1, min(4, n)))}
     name = "random_uniform_hypergraph" if uniform else "random_hypergraph"
+    shared = dict(by)  # ONE parameter object handed to every call of the case, as callers do (the expectations use `by`)
     for seed in (rng.randrange(10**6), rng.randrange(10**6), 0):
         def wit(extra=None):
             return {"fn": name, "n": n, "by_size": by, "seed": seed, "extra": repr(extra)[:600]}
@@ -71,7 +74,7 @@ def case_random(ctx, rng, idx, uniform=False):
             if uniform:
                 s_, c_ = list(by.items())[0]
                 return random_uniform_hypergraph(n, s_, c_, seed=seed)
-            return random_hypergraph(n, dict(by), seed=seed)
+            return random_hypergraph(n, shared, seed=seed)
 
         r = call(gen)
         if isinstance(r, _Raised):
@@ -268,6 +271,40 @@ def case_add(ctx, rng, idx):
             ctx.distinct_add(("add", S0.freeze(), size, many, inplace))
     if idx % 100 < 8:
         ctx.sample(wit())
+
+
+def saturated_pool_case(ctx, rng, idx):
+    """random_shuffle with p=1 on hyperedges that occupy EVERY subset of their own node pool (all 6 pairs on 4 nodes, all 10
+    pairs on 5 nodes, r singletons on r nodes) while the hypergraph has other nodes too: whatever an implementation does when
+    it cannot find a 'fresh' hyperedge, the replacement nodes come from the rewired hyperedges only.  One configuration, many
+    seeds (a give-up path taken once in a few hundred calls is still taken here)."""
+    import itertools
+    import hypergraphx as hgx
+    from hypergraphx.generation import random as gr
+
+    n_seeds = 1500 if ctx.tier == "quick" else 6000
+    conf = [(4, 2), (5, 2), (6, 1), (5, 3)][(idx // 8) % 4]
+    pool = list(range(conf[0]))
+    inside = list(itertools.combinations(pool, conf[1]))
+    outside = [(10, 11, 12, 13), (11, 12, 14, 15, 16)] + ([(12, 13)] if conf[1] != 2 else [(12, 13, 17)])
+    ctx.event(f"saturated-shuffle-pool:{conf}")
+    bad = None
+    for seed in range(n_seeds):
+        g = hgx.Hypergraph(inside + outside)
+        g.add_node(99)
+        r = call(quiet, gr.random_shuffle, g, size=conf[1], inplace=True, p=1, seed=seed)
+        if isinstance(r, _Raised):
+            ctx.check("C14:shuffle", False, f"C14:random_shuffle:raised:{type(r.e).__name__}:saturated-pool", lambda: {"conf": conf, "seed": seed, "error": repr(r)})
+            return
+        out = [tuple(e) for e in g.get_edges() if len(e) == conf[1]]
+        others = sorted(tuple(e) for e in g.get_edges() if len(e) != conf[1])
+        ok = all(set(e) <= set(pool) for e in out) and others == sorted(outside) and set(g.get_nodes()) == set(pool) | {99} | set().union(*map(set, outside)) and len(out) <= len(inside)
+        ctx.tick("C14:shuffle")
+        if not ok:
+            bad = {"conf": conf, "seed": seed, "got": out[:12], "others": others}
+            break
+    ctx.check("C14:shuffle", bad is None, "C14:random_shuffle:replacement-node-outside-rewired-hyperedges:saturated-pool", lambda: bad)
+    ctx.distinct_add(("saturated-pool", conf))
 
 
 def case_shuffle(ctx, rng, idx):
